@@ -132,6 +132,9 @@ class Prog(object):
         op = lf[0]
         if op == "c":
             return ("c", lid, self._task(lf[1]))
+        if op == "cw":
+            self.features.add("leaf:cw")
+            return ("c", lid, self._task(lf[1]), "cw")
         if op == "i":
             self.kinds.add(lf[1])
             if lf[2] != "ok":
@@ -175,6 +178,14 @@ class HErr(Exception):
     def __init__(self, tag):
         Exception.__init__(self, tag)
         self.tag = tag
+
+
+class HFalsyErr(HErr):
+    """an exception whose truth value is False (e.g. carries an empty list of reasons): errors must be
+    recognised by `is not None`, never by truthiness"""
+
+    def __len__(self):
+        return 0
 
 
 class HBaseErr(BaseException):
@@ -341,6 +352,8 @@ class R1(object):
             return ("v", ("i", lid), t)
         if mode == "err":
             return ("e", ("item", lid), t)
+        if mode == "errf":
+            return ("e", ("itemf", lid), t)
         if mode == "unset":
             if fm == "setraise":
                 return ("e", ("flushlate", kind), t)
